@@ -144,6 +144,11 @@ def fixtures():
         def initialize_profiles(self):
             pass
 
+        def generate_profiles(self):
+            # "profiles" of this model: its current coefficients (so that the stored profiles show at WHICH parameter
+            # vector they were generated); it has no per-contribution breakdown (model_contrib is the base class's)
+            return {'coefficients': np.array(self._c, float)}
+
         def model(self, wngrid=None, cutoff_grid=True):
             self.evals += 1
             native = self._x
